@@ -1,0 +1,84 @@
+//go:build verif
+
+// Contracts for the flytvc deductive verifier (see /verif/DESIGN.md).
+// This file is comment-only and is compiled only with -tags verif.
+// Clauses are bound to functions by name, to parameters by position and to
+// loops by ordinal; they never name a local variable.
+
+package flyt
+
+// ---------------------------------------------------------------------------
+// User code reached through interfaces (abstract callbacks)
+// ---------------------------------------------------------------------------
+
+//@ spec func cfgRetries(n Node) int
+//@ spec func cfgWait(n Node) int
+//@ spec func budget(n Node) int = implements(n, RetryableNode) ? cfgRetries(n) : 1
+//@ spec func waitOf(n Node) int = implements(n, RetryableNode) ? cfgWait(n) : 0
+//@ spec func isBatch(n Node) bool = isType(n, *BatchNode) || isType(n, *BatchNodeBuilder)
+//@ spec func norm(a Action) Action = a == "" ? DefaultAction : a
+
+// A2: retry settings are pure views during one run; budgets are >= 1.
+//@ axiom forall n Node :: cfgRetries(n) >= 1
+
+//@ abstract Node.Prep(n, c, s) (v, e)
+//@   havoc user
+//@ abstract Node.Exec(n, c, p) (v, e)
+//@   havoc user
+//@ abstract Node.Post(n, c, s, p, r) (a, e)
+//@   havoc user
+//@ abstract FallbackNode.ExecFallback(n, p, e0) (v, e)
+//@   havoc user
+//@ abstract RetryableNode.GetMaxRetries(n) (r)
+//@   ensures r == cfgRetries(n)
+//@ abstract RetryableNode.GetWait(n) (w)
+//@   ensures w == cfgWait(n)
+
+// ---------------------------------------------------------------------------
+// Run: the node lifecycle monitor (C01 C02 C04 C05 C18 C20)
+// ---------------------------------------------------------------------------
+
+//@ func Run(ctx, node, shared) (act, err)
+//@   requires node != nil && ctx != nil
+//@   requires isType(node, *BatchNodeBuilder) ==> node.(*BatchNodeBuilder) != nil
+//@   ghost ph int = 0; nExec int = 0; nFb int = 0; nPost int = 0
+//@   ghost pv any = nil; perr error = nil; lastRes any = nil; lastErr error = nil; attErr error = nil
+//@   ghost postAct Action = ""; postErr error = nil; lastEnd int = now
+//@   on call Node.Prep(n, c, s) returns (v, e)
+//@     requires [C01] n == node && c == ctx && s == shared && ph == 0
+//@     requires [C05] !cancelled@entry
+//@     effect ph = 1; pv = v; perr = e
+//@   on call Node.Exec(n, c, p) returns (v, e)
+//@     requires [C01] n == node && c == ctx && (ph == 1 || ph == 2) && perr == nil && p == pv
+//@     requires [C02] nExec < budget(node) && (nExec > 0 ==> attErr != nil)
+//@     requires [C05] !cancelled
+//@     requires [C20] nExec > 0 && waitOf(node) > 0 ==> now >= lastEnd + waitOf(node)
+//@     effect ph = 2; nExec++; lastRes = v; lastErr = e; attErr = e; lastEnd = now
+//@   on call FallbackNode.ExecFallback(n, p, e0) returns (v, e)
+//@     requires [C01] n == node && ph == 2 && lastErr != nil && nFb == 0
+//@     requires [C02] nExec == budget(node) && attErr != nil && p == pv && e0 == attErr
+//@     effect ph = 3; nFb = 1; lastRes = v; lastErr = e
+//@   on call Node.Post(n, c, s, p, r) returns (a, e)
+//@     requires [C01] n == node && c == ctx && (ph == 2 || ph == 3) && lastErr == nil && s == shared && p == pv && r == lastRes && nPost == 0
+//@     effect ph = 4; nPost = 1; postAct = a; postErr = e
+//@   loop 1 invariant (ph == 1 || ph == 2) && ((ph == 1) <==> (nExec == 0)) && nExec >= 0
+//@   loop 1 invariant ph == 2 ==> lastErr != nil
+//@   loop 1 invariant attErr == lastErr && !sawCancel
+//@   loop 1 invariant [C02] nExec <= budget(node)
+//@   loop 1 invariant [C20] lastEnd <= now
+//@   loop 1 decreases [C02] budget(node) - nExec
+//@   ensures [C01,C18] !isBatch(node) ==> (err == nil && act != "") || (err != nil && act == "")
+//@   ensures [C01] !isBatch(node) ==> (err == nil <==> ph == 4 && postErr == nil)
+//@   ensures [C01,C18] !isBatch(node) && err == nil ==> act == norm(postAct)
+//@   ensures [C01] !isBatch(node) ==> !((ph == 2 || ph == 3) && lastErr == nil)
+//@   ensures [C02] !isBatch(node) && ph >= 2 && !sawCancel ==> (nFb == 1 <==> implements(node, FallbackNode) && attErr != nil && nExec == budget(node))
+//@   ensures [C02] !isBatch(node) && ph >= 2 && !sawCancel && attErr == nil ==> nFb == 0 && lastErr == nil
+//@   ensures [C04] !isBatch(node) && perr != nil ==> err != nil && Is(err, perr) && nExec == 0 && nPost == 0
+//@   ensures [C04] !isBatch(node) && (ph == 2 || ph == 3) && !sawCancel ==> err != nil && Is(err, lastErr) && nPost == 0
+//@   ensures [C04] !isBatch(node) && ph == 4 && postErr != nil ==> err != nil && Is(err, postErr)
+//@   ensures [C05] !isBatch(node) && sawCancel ==> err != nil && Is(err, ctxErr(ctx))
+//@   ensures [C05] !isBatch(node) && cancelled@entry ==> callbacks == callbacks@entry && err != nil && Is(err, ctxErr(ctx))
+
+//@ func runBatch(ctx, node, shared) (act, err)
+//@   trusted
+//@   havoc user
